@@ -118,6 +118,11 @@ def ancilla_base_instances(ctx, rid):
 
 def rules(ctx):
     P, R = ctx.prog, ctx.res
+    ctx.rule('R01.12', "no function writes module-level state (memo / registry): results independent of earlier calls", floor=1)
+    from .C14 import no_module_state as _nms
+    _nms(ctx, 'R01.12')
+    from .C14 import derived_fields as _df
+    _df(ctx, 'R01.12')      # ... nor keeps derived state on a model that some mutator forgets (stale memo)
     ctx.rule('R01.1', "deg < 2 raises before the reduction; deg None replaced by self.degree", floor=2)
     ctx.rule('R01.2', "every store into the output is dominated by the loop exit len(K) <= deg for its "
                       "own key, or merges a 3-operand AND gadget", floor=2)
